@@ -19,6 +19,7 @@ import (
 	"math"
 	"math/big"
 	"math/rand"
+	"os"
 	"runtime"
 	"slices"
 	"sort"
@@ -200,6 +201,10 @@ func c19Reads(reads [][]byte, counts []int) string {
 }
 
 func (c19) Gen(rng *rand.Rand, tier string, emit func(string)) {
+	if os.Getenv("VERIF_C19_ONLY") == "ks" { // development aid: the glue-pass cases alone (other PRNG draws than in a full run)
+		c19GenGlue(rng, tier, emit)
+		return
+	}
 	h := func(s string) string { return hx([]byte(s)) }
 	// ---- corpus: hand-picked cases (the first ones pin the defects found on the unchanged code)
 	for _, s := range []string{"", "a", "ac", "acg", "acgt", "acgta", "ACGTU", "nnnnn", "acgtnacgt", "tttttttt", "ac.t-", "xyzacgt", "a4a4a"} {
@@ -330,6 +335,7 @@ func (c19) Gen(rng *rand.Rand, tier string, emit func(string)) {
 	c19GenKM(rng, n, emit)
 	c19GenConc(rng, tier, emit) // last: the cases above keep their PRNG draws
 	c19GenHist(rng, tier, emit) // fourth pass: histories on one object (after conc: every earlier case keeps its draws)
+	c19GenGlue(rng, tier, emit) // glue pass: the commands of pkg/obitools/obikmersim (last: every earlier case keeps its draws)
 }
 
 // one random graph case: k, reads derived from a template, counts
@@ -481,6 +487,10 @@ func (c19) Exec(c string) (string, []Fail) {
 	stat("op:" + f[0])
 	if f[0] == "conc" { // concurrent use (c19_conc.go): its own watchdog
 		return c19ExecConc(f)
+	}
+	if f[0] == "ks" { // glue pass (c19_glue.go): the commands obikmersimcount / obikmermatch, their own watchdog
+		res := c19ExecGlue(f, fail)
+		return res, fails
 	}
 	if f[0] == "race" && len(f) > 1 && f[1] == "conc" { // the same through a -race build
 		return c19Race(f[1:])
